@@ -402,7 +402,8 @@ fn run_workers(check: &dyn Check, a: &Args, nworkers: usize, tag: &str, list_has
     let wd = work_dir();
     let mut kids = Vec::new();
     for k in 0..nworkers {
-        let out = wd.join(format!("{}.{}.{}.json", check.id(), tag, k));
+        // the parent's pid keeps concurrent batches of the same check apart
+        let out = wd.join(format!("{}.{}{}.{}.json", check.id(), tag, std::process::id(), k));
         let _ = std::fs::remove_file(&out);
         let mut c = std::process::Command::new(exe_for(check.worker_profile(k)));
         c.arg(check.id())
@@ -616,7 +617,7 @@ fn parent_main(check: &dyn Check, a: &Args) -> ! {
         // minimise in a child process (a replay may crash), bounded
         if v["values"].is_array() && minimised < 6 {
             minimised += 1;
-            let tmp = work_dir().join(format!("{id}.min.{:016x}.json", hash_str(sig)));
+            let tmp = work_dir().join(format!("{id}.min.{}.{:016x}.json", std::process::id(), hash_str(sig)));
             std::fs::write(&tmp, serde_json::to_vec(&v).unwrap()).unwrap();
             let st = std::process::Command::new(exe_for(v["profile"].as_str().unwrap_or("release")))
                 .arg(id).arg("--minimise").arg(&tmp).arg("--tier").arg(a.tier.name())
